@@ -160,6 +160,10 @@ pub struct Scenario {
     /// listed are given refcount 1, all others 0) and the allocator's hint
     #[serde(default)]
     pub rc_pattern: Option<RcPattern>,
+    /// the allocator's free hint (host cluster index) is put here after
+    /// every open: reaches far host offsets with small images (hook H4)
+    #[serde(default)]
+    pub alloc_hint: Option<u64>,
     /// C14: structured malformations (field, class) applied to the top image
     #[serde(default)]
     pub mutations: Vec<(String, String)>,
@@ -614,7 +618,16 @@ impl Runner {
                 "bound": sc.bound_clusters * geom.bpc(),
                 "mal": sc.mutations.iter().map(|m| json!([m.0, m.1])).collect::<Vec<_>>(),
                 "lenient": if sc.mutations.is_empty() {0} else {1},
-                "leaks": match &sc.images[0] { ImageSrc::Build { desc } => desc.leaks, _ => 0 },
+                "leaks": match &sc.images[0] {
+                    // clusters of the L1 table behind the entries the header lists count as leaked
+                    ImageSrc::Build { desc } => {
+                        let cs = 1usize << desc.cb;
+                        let need = desc.vclusters.div_ceil(cs / 8).max(1);
+                        let hdr = desc.l1_entries.unwrap_or(need);
+                        desc.leaks + (need.max(hdr) * 8).div_ceil(cs) - (hdr * 8).div_ceil(cs).max(1).min((need.max(hdr) * 8).div_ceil(cs))
+                    }
+                    _ => 0,
+                },
                 "refuse": if sc.must_refuse {1} else {0},
                 "fmtfail": FORMAT_FAIL.with(|f| f.borrow_mut().take()).unwrap_or_default(),
                 "par": if sc.steps.iter().any(|o| matches!(o, Op::Par{..})) {1} else {0},
@@ -715,6 +728,11 @@ impl Runner {
         self.ev(json!({"e":"OpenRes","res":"ok","layer":0,"msg":""}));
         if let Some(pt) = &self.sc.rc_pattern {
             dev.verif_set_free_cluster_offset(pt.hint << self.geom.cb);
+        }
+        if let Some(h) = self.sc.alloc_hint {
+            if !ro {
+                dev.verif_set_free_cluster_offset(h << self.geom.cb);
+            }
         }
         self.dev = Some(dev);
         self.dev_ro = ro;
